@@ -224,6 +224,36 @@ func runC10(env *Env, data map[string]any) *Outcome {
 			}
 		}
 	}
+	// several input files: the errors keep the line numbers of THEIR file and all of them are reported
+	if len(text)%4 == 0 {
+		valid := writeFile(env, "c10-valid.klg", "2000-01-01\n    1h\n\n2000-01-02\nfoo\n    8:00 - 9:00 bar\n")
+		for _, order := range [][]string{{valid, file}, {file, valid}, {file, file}} {
+			jm := runCLI(env, CLIOpts{Now: mkTime(2021, 3, 4, 12, 0)}, append([]string{"json"}, order...)...)
+			o.Evals++
+			var envm struct {
+				Records any `json:"records"`
+				Errors  []struct{ Line, Column, Length int } `json:"errors"`
+			}
+			want := len(errs)
+			if order[0] == order[1] {
+				want = 2 * len(errs)
+			}
+			bad := jm.Panic != "" || jm.Code != 0 || json.Unmarshal([]byte(jm.Stdout), &envm) != nil || envm.Records != nil || len(envm.Errors) != want
+			if !bad {
+				for i, j := range envm.Errors {
+					e := errs[i%len(errs)]
+					if j.Line != e.LineNumber() || j.Column != e.Column() || j.Length != e.Length() {
+						bad = true
+					}
+				}
+			}
+			if bad {
+				o.Findings = append(o.Findings, Finding{Kind: "D", What: "`klog json` with two input files does not report the errors of the faulty file(s) with the line numbers of that file", Impl: short(jm.Stdout+jm.Err+jm.Panic, 500)})
+				break
+			}
+		}
+		o.Tags = append(o.Tags, "two-files")
+	}
 	o.Sample = map[string]any{"class": str(data, "class"), "faulty_line": faulty + 1, "first_error": canonErr(errs[0])}
 	return o
 }
